@@ -225,6 +225,9 @@ pub enum Op {
     Find { z: ZRef, f: Fields },
     FindN { z: ZRef, f: Fields, n: usize, buf: usize },
     Resize { buf: usize, n: usize },
+    /// find_n at a local time derived, at execution time, from the zone's own `pick`-th transition
+    /// (`delta` seconds away from it, seen through the offset before or after it)
+    FindAt { z: ZRef, pick: u64, delta: i64, n: usize, buf: usize },
     Format { z: ZRef, t: i64, ns: u32 },
     Now { z: ZRef },
     UtcNow,
@@ -279,6 +282,7 @@ impl Op {
             Op::Find { .. } => "find",
             Op::FindN { .. } => "findn",
             Op::Resize { .. } => "resize",
+            Op::FindAt { .. } => "findat",
             Op::Format { .. } => "format",
             Op::Now { .. } => "now",
             Op::UtcNow => "utcnow",
@@ -320,6 +324,7 @@ impl Op {
             Op::Find { z, f } => format!("{n} z={} f={}", z.text(), f.text()),
             Op::FindN { z, f, n: k, buf } => format!("{n} z={} f={} n={k} buf={buf}", z.text(), f.text()),
             Op::Resize { buf, n: k } => format!("{n} buf={buf} n={k}"),
+            Op::FindAt { z, pick, delta, n: k, buf } => format!("{n} z={} pick={pick} delta={delta} n={k} buf={buf}", z.text()),
             Op::Format { z, t, ns } => format!("{n} z={} t={t} ns={ns}", z.text()),
             Op::Now { z } => format!("{n} z={}", z.text()),
             Op::UtcNow => n.to_string(),
@@ -378,6 +383,7 @@ impl Op {
             "find" => Op::Find { z: zr("z")?, f: Fields::parse(get("f")?)? },
             "findn" => Op::FindN { z: zr("z")?, f: Fields::parse(get("f")?)?, n: us("n")?, buf: us("buf")? },
             "resize" => Op::Resize { buf: us("buf")?, n: us("n")? },
+            "findat" => Op::FindAt { z: zr("z")?, pick: get("pick")?.parse().map_err(|_| "bad pick".to_string())?, delta: i64v("delta")?, n: us("n")?, buf: us("buf")? },
             "format" => Op::Format { z: zr("z")?, t: i64v("t")?, ns: u32v("ns")? },
             "now" => Op::Now { z: zr("z")? },
             "utcnow" => Op::UtcNow,
